@@ -17,6 +17,11 @@
 (*           1-based up to program version 4, whatever the unit's version);*)
 (*           write must refuse only a version >= 5 program under a unit    *)
 (*           of version < 5;                                               *)
+(*  lines  : three consecutive rows with lines a, b, a for every ordered   *)
+(*           pair of the 64-bit boundary set {0,1,2,2^31+-1,2^32+-1,2^63-1,*)
+(*           2^63,2^63+1,2^64-2,2^64-1}: the advance_line(i64::MAX/MIN)    *)
+(*           split; inside TLC: the reader's line register arrives exactly *)
+(*           at the given line and LineSM's machine yields the rows;       *)
 (*  script : every call script up to ScriptLen over a small alphabet of    *)
 (*           builder calls (begin_sequence / set_address / row mutations + *)
 (*           generate_row / end_sequence) through the builder machine:     *)
@@ -207,8 +212,36 @@ InvMixed == s # <<>> =>
                                 exp |-> [rows |-> RowsOfMeaning(B.rows), ins |-> B.ins, modelok |-> TRUE,
                                          refuse |-> ~WriteAccepts(P, s.uenc)]])>>)
 
+(*------------------------------------------------------------------------*)
+(* lines: s = <<>> | <<a, b>> (byte tuples) *)
+P2(k, d) == LET one == [i \in 1..8 |-> IF i = (k \div 8) + 1 THEN 2 ^ (k % 8) ELSE 0] IN
+            IF d >= 0 THEN Add(one, Nat8(d)) ELSE Sub(one, Nat8(0 - d))       \* 2^k + d
+LineVals == {Nat8(0), Nat8(1), Nat8(2), P2(31, 0 - 1), P2(31, 1), P2(32, 0 - 1), P2(32, 1),
+             P2(63, 0 - 1), P2(63, 0), P2(63, 1), Sub(Z8, Nat8(2)), Sub(Z8, Nat8(1))}
+InitLines == t \in Tuples /\ s = <<>>
+NextLines == UNCHANGED <<m, t>> /\ s = <<>> /\ \E a \in LineVals : \E b \in LineVals : s' = <<a, b>>
+LinesRow(P, k, line) == [RowInit(P) EXCEPT !.off = k * P.mil, !.line = line]
+LinesMeaningRow(P, k, line, es) ==
+    <<Trim(Nat8(BaseAddr + k * P.mil)), <<>>, Trim(Nat8(FileRaw(P, FileInit(P)))), Trim(line), <<>>,
+      (IF P.dis THEN 1 ELSE 0) + (IF es THEN 4 ELSE 0), <<>>, <<>>>>
+InvLines == s # <<>> =>
+    \E P \in {PT[t]} : \E a \in {s[1]} : \E b \in {s[2]} :
+    \E is \in {<< <<"A", BaseAddr>> >> \o RowIns64(P, One(8), a, 0) \o RowIns64(P, a, b, P.maxops)
+                \o RowIns64(P, b, a, P.maxops) \o << <<"E", 0>> >>} :
+    \E rows \in {<<LinesMeaningRow(P, 0, a, FALSE), LinesMeaningRow(P, 1, b, FALSE), LinesMeaningRow(P, 2, a, FALSE),
+                    LinesMeaningRow(P, 2, a, TRUE)>>} :
+    \E D \in {StdRun(HeaderOf(P), AsList64(is))} :
+    /\ LineSplitCorrect(P, One(8), a, 0) /\ LineSplitCorrect(P, a, b, P.maxops) /\ LineSplitCorrect(P, b, a, P.maxops)
+    /\ D.wf /\ SameRows(D.rows, rows)
+    /\ PrintT(<<"CASE", ToJson([sys |-> "lines", P |-> P, wide |-> TRUE,
+                                calls |-> << <<"begin", <<BaseAddr>>>>, <<"row", LinesRow(P, 0, a)>>, <<"row", LinesRow(P, 1, b)>>,
+                                             <<"row", LinesRow(P, 2, a)>>, <<"end", 2 * P.mil>> >>,
+                                exp |-> [rows |-> rows, ins |-> [k \in 1..Len(is) |-> WideIns(is[k])], modelok |-> TRUE]])>>)
+
 Init == \E md \in Modes : m = md /\ CASE md = "grid" -> InitGrid [] md = "script" -> InitScript [] md = "files" -> InitFiles
-                                          [] md = "mixed" -> InitMixed
+                                          [] md = "mixed" -> InitMixed [] md = "lines" -> InitLines
 Next == CASE m = "grid" -> NextGrid [] m = "script" -> NextScript [] m = "files" -> NextFiles [] m = "mixed" -> NextMixed
+          [] m = "lines" -> NextLines
 Inv == CASE m = "grid" -> InvGrid [] m = "script" -> InvScript [] m = "files" -> InvFiles [] m = "mixed" -> InvMixed
+         [] m = "lines" -> InvLines
 =============================================================================
